@@ -78,6 +78,8 @@ where
         // stream task between the check and a later registration would otherwise never wake
         // this task.
         self.waker().register(cx.waker());
+        #[cfg(hyperium_h3_verif)]
+        crate::verif_hooks::preempt("driver:between_waker_registration_and_error_check");
 
         // Check if the connection is in error state
         if let Some(err) = self.get_conn_error() {
@@ -85,8 +87,6 @@ where
             // err might be a different error so match again
             return Poll::Ready(Err(self.convert_to_connection_error(err)));
         }
-        #[cfg(hyperium_h3_verif)]
-        crate::verif_hooks::preempt("driver:between_error_check_and_waker_registration");
         Poll::Pending
     }
 
